@@ -60,6 +60,8 @@ var (
 	consensusStatePrefix          = []byte("ConsensusState")          // consensusStatePrefix + num (uint64 big endian) -> consensus state
 	consensusValidatorsInfoPrefix = []byte("ConsensusValidatorsInfo") // consensusValidatorsInfoPrefix + hash (consensus params hash) -> consensus params info
 	consensusParamsInfoPrefix     = []byte("ConsensusParamsInfo")     // consensusParamsInfoPrefix + hash (validators hash) -> consensus validators info
+	// consensusValidatorsPrioritiesPrefix + num (uint64 big endian) -> proposer priorities of the three validator sets of that state
+	consensusValidatorsPrioritiesPrefix = []byte("ConsensusValidatorsPriorities")
 
 	// Data item prefixes (use single byte to avoid mixing data types, avoid `i`, used for indexes).
 	headerPrefix       = []byte("h") // headerPrefix + num (uint64 big endian) + hash -> header
@@ -279,4 +281,9 @@ func calcConsensusValidatorsInfoKey(hash common.Hash) []byte {
 // consensusParamsInfoKey = consensusParamsInfoPrefix + hash (consensus params hash)
 func calcConsensusParamsInfoKey(hash common.Hash) []byte {
 	return append(consensusParamsInfoPrefix, hash.Bytes()...)
+}
+
+// consensusValidatorsPrioritiesKey = consensusValidatorsPrioritiesPrefix + num (uint64 big endian)
+func calcConsensusValidatorsPrioritiesKey(height uint64) []byte {
+	return append(append([]byte{}, consensusValidatorsPrioritiesPrefix...), encodeBlockHeight(height)...)
 }
